@@ -202,6 +202,10 @@ return:表项地址，若缓冲区已经读取完毕返回NULL
 */
 u8_t *buffergroup::require_buffer_entry(const u8_t id)
 {
+  // the buffer belongs to the I/O thread until it is READY: do not look at it before
+  ctrl[id].wait_ready();
+  if (!ctrl[id].cmpstate(READY))
+    return NULL;
   u8_t *result = buflst[id].get_entry();
   WV_EVENT(WV_GET_FIRST, id, &buflst[id], result);
   if (result == NULL)
